@@ -721,8 +721,15 @@ func main() {
 	outAst := flag.String("out-ast", "", "third output Lean file: source text of the node/list primitives (PV.FactsAst); not written when empty")
 	outProg := flag.String("out-prog", "", "fifth output Lean file: whole functions translated statement by statement (PV.FactsProg); not written when empty")
 	outCore := flag.String("out-core", "", "sixth output Lean file: the parser core translated statement by statement (PV.FactsCore); not written when empty")
+	outTree := flag.String("out-tree", "", "seventh output Lean file: the tree passes and the evaluation translated statement by statement (PV.FactsTree); not written when empty")
 	flag.StringVar(&repo, "repo", "/repo", "repository root")
 	flag.Parse()
+	if *outTree != "" {
+		if err := writeTreeFacts(*outTree); err != nil {
+			fmt.Fprintln(os.Stderr, err)
+			os.Exit(1)
+		}
+	}
 	if *outCore != "" {
 		if err := writeCoreFacts(*outCore); err != nil {
 			fmt.Fprintln(os.Stderr, err)
